@@ -18,6 +18,11 @@
 (*            configuration calls of the history re-applied before         *)
 (*            (cfg_first) or after load_state_dict(strict=False)           *)
 (*          copy     the original was a deep copy (intermediate checkpoint)*)
+(*          pre_built, child   the wrapper resumed into was built in the   *)
+(*                   process of the original after pre_built wrappers of   *)
+(*                   other architectures / in a fresh python process       *)
+(*          strict_ok   load_state_dict(strict=True) into another fresh    *)
+(*                   wrapper does not raise                                *)
 (*          err      exception of load_state_dict / a re-applied call      *)
 (*          missing, unexpected   as reported by load_state_dict           *)
 (*          pre      per group: fresh wrapper = checkpoint BEFORE loading  *)
@@ -101,6 +106,8 @@ CkVerdict(kind, st, relax, ck, where) ==
     IF ck.err # "" THEN Viol("C17.load at " \o where \o ": " \o ck.err)
     ELSE IF ck.missing # <<>> \/ ck.unexpected # <<>>
     THEN Viol("C17.keys at " \o where \o ": missing " \o ToString(ck.missing) \o " unexpected " \o ToString(ck.unexpected))
+    ELSE IF ~ck.strict_ok
+    THEN Viol("C17.keys at " \o where \o ": load_state_dict(strict=True) into a fresh wrapper of the same seed network raises")
     ELSE IF ~ck.sd_equal
     THEN Viol("C17.state at " \o where \o ": the state_dict of the restored wrapper differs from the checkpoint in " \o ToString(ck.sd_diff))
     ELSE LET v1 == ObsAll(ck.obs, 1, where, OK) IN IF Lvl(v1) = 3 THEN v1
@@ -133,6 +140,8 @@ Walk(t, P, i, st, pg, relax, acc) ==
          IN  IF e.act.a = "ckpt"
              THEN LET v == CkVerdict(t.kind, st, relax, e.ck, where \o " (checkpoint after " \o ToString(i - 1) \o " events"
                                      \o (IF e.ck.copy THEN ", on a copy" ELSE "") \o (IF e.ck.warm THEN ", used fresh wrapper" ELSE "")
+                                     \o (IF e.ck.child THEN ", resumed in a fresh process"
+                                         ELSE ", resumed after " \o ToString(e.ck.pre_built) \o " other wrapper(s) built in the same process")
                                      \o (IF e.ck.cfg_first THEN ", configuration before load)" ELSE ", configuration after load)"))
                   IN IF Lvl(v) = 3 THEN v ELSE Walk(t, P, i + 1, st, pg, relax, Worse(acc, v))
              ELSE LET v == HistVerdict(t.kind, e, pg, where \o " " \o ToString(e.act))
